@@ -39,9 +39,12 @@ RULE = ('seeded generation of interleaved evaluation histories on 2-6 objects '
 # object table (lazy, so a replica builds only what one query needs)
 # ---------------------------------------------------------------------------
 class Table(object):
-    def __init__(self, recipes):
+    def __init__(self, recipes, pre_eval=False):
         self.recipes = {r['h']: r for r in recipes}
         self.objs = {}
+        # only the objects under test carry the user's earlier evaluations
+        # (an evaluation leaves no trace, so replicas do without them)
+        self.pre_eval = pre_eval
         # arrays / data frames handed to constructors: (handle, what,
         # snapshot taken before the call, the object itself)
         self.inputs = []
@@ -99,6 +102,11 @@ class Table(object):
             data = np.array(r['data'])[:, :n_out, :len(ts)]
             self.inputs.append((r['h'], 'filter data', snapshot(data), data))
             flt = chi.GaussianFilter(data)
+            if r.get('filter'):
+                # the user's own filter object (any class; he may have
+                # evaluated it before handing it over, and may hand it to
+                # several posteriors)
+                flt = self.get(r['filter'])
             sigma = r.get('sigma')
             n_top = pop.n_parameters() + (0 if sigma else n_out)
             return chi.PopulationFilterLogPosterior(
@@ -129,7 +137,14 @@ class Table(object):
             p.fix_parameters({names[i % len(names)]: v for i, v in r['fix']})
             return p
         if k == 'filter':
-            return build_filter(r)
+            flt = build_filter(r)
+            if self.pre_eval and r.get('pre_eval'):
+                # the user has already evaluated his filter before he hands
+                # it to a posterior
+                pe = r['pre_eval']
+                call(query, flt, 'filter', pe['q'],
+                     np.array(pe['x'], dtype=float), {})
+            return flt
         if k in ('ctrl_post', 'ctrl_pred', 'ctrl'):
             import pandas as pd
             mech = self.get(r['mech'])
@@ -187,7 +202,7 @@ def deps(recipes, h, acc=None):
     """Handles that h is (transitively) built from."""
     acc = acc if acc is not None else set()
     r = [x for x in recipes if x['h'] == h][0]
-    for key in ('mech', 'pop', 'll', 'hl', 'pred', 'error'):
+    for key in ('mech', 'pop', 'll', 'hl', 'pred', 'error', 'filter'):
         if key in r and isinstance(r[key], str):
             if r[key] not in acc:
                 acc.add(r[key])
@@ -364,7 +379,7 @@ def fault_expectation(kind, q, res, n):
 def run(scenario, world):
     import pints
     recipes = scenario['recipes']
-    main = Table(recipes)
+    main = Table(recipes, pre_eval=True)
     kinds = {r['h']: r['kind'] for r in recipes}
     # build everything in recipe order (derived objects copy the user models
     # at this moment)
@@ -821,12 +836,28 @@ def generate(rng, index, tier):
         recipes.append({'h': 'fpop', 'kind': 'pop', 'pop': fpop,
                         'n_ids': n_sim})
         ts = rng.sample([0.5, 1.0, 2.0, 3.0], rng.randint(1, 3))
+        fdat = [[_vals(rng, 3, 0.3, 2.0) for _ in range(3)]
+                for _ in range(3)]
+        user_filter = None
+        if rng.random() < 0.6 and n_out <= 3:
+            user_filter = 'fflt'
+            recipes.append({
+                'h': 'fflt', 'kind': 'filter',
+                'cls': rng.choice(sorted(FILTERS)),
+                'data': [[row[:len(ts)] for row in ind[:n_out]]
+                         for ind in fdat],
+                'shape': [n_out, len(ts)]})
+            if rng.random() < 0.6:
+                recipes[-1]['pre_eval'] = {
+                    'q': rng.choice(['f_ll', 'f_s1']),
+                    'x': [[_vals(rng, len(ts), 0.3, 2.0)
+                           for _ in range(n_out)]
+                          for _ in range(rng.randint(2, 4))]}
         recipes.append({
             'h': 'fp', 'kind': 'filterpost', 'mech': 'm', 'pop': 'fpop',
             'times': ts, 'n_sim': n_sim, 'sigma': rng.random() < 0.4,
-            'log_scale': rng.random() < 0.3,
-            'data': [[_vals(rng, 3, 0.3, 2.0) for _ in range(3)]
-                     for _ in range(3)]})
+            'log_scale': rng.random() < 0.3, 'filter': user_filter,
+            'data': fdat})
         if rng.random() < 0.4:
             # a sibling built from the same user population model with
             # another number of simulated individuals
